@@ -198,6 +198,24 @@ func serOne(sc *serCase) (out serOut) {
 		for i := 0; i < sc.N; i++ {
 			out.Builds = append(out.Builds, buildJO(root, files, sc.Root))
 		}
+	case "prior":
+		// the projects of the group are built one after the other in ONE process and at ONE
+		// path: whatever an earlier build leaves behind in the process is there for the later ones
+		outer, err := os.MkdirTemp("", "vh")
+		if err != nil {
+			out.End = "setup-error: " + err.Error()
+			return out
+		}
+		defer os.RemoveAll(outer)
+		out.End = "ok"
+		for i := range sc.Group {
+			root, files, err := setupProjectAt(&sc.Group[i], outer)
+			if err != nil {
+				out.End = "setup-error: " + err.Error()
+				return out
+			}
+			out.Builds = append(out.Builds, buildJO(root, files, sc.Group[i].Root))
+		}
 	case "conc":
 		type proj struct {
 			root  string
